@@ -554,6 +554,9 @@ def o10_11_metadata_bytes(mir, tier):
 
 def o10_11_confirm(v, out):
     """Native: `manifest_codec` - version edits of several shapes (files with small and huge numbers / sizes) through the real encoder and decoder."""
+    if v['replay'][0] == 'manifest_torn_prefixes':
+        if out.get('_rc') != 0: return (True, 'native run panicked / failed: %s' % out.get('_stderr', '')[-300:])
+        return (out.get('accepted_inside_a_field', '0') != '0', 'native: %s of %s proper prefixes of encoded edits decode although they end inside a field (first: %s)' % (out.get('accepted_inside_a_field'), out.get('prefixes'), out.get('first')))
     if out.get('_rc') != 0: return (False, 'native run failed: %s' % out.get('_stderr', '')[-300:])
     return (out.get('mismatches', '0') != '0', 'native: %s of %s encoded edits decode to something else (first: %s)' % (out.get('mismatches'), out.get('edits'), out.get('first_mismatch')))
 
@@ -615,9 +618,13 @@ def o10_12_manifest_bytes(mir, tier):
             gp = d[mf.index('compaction_pointers')]
             okp = BoolVal(len(gp) == len(ptrs) if full else len(gp) <= len(ptrs))
             posts.append(('the compaction pointers of an edit do not survive encode + decode', And(okp, *[And(g[0] == p[0] if is_bv(g[0]) else BoolVal(False), same_key(mir, ex, g[1], p[2])) for g, p in zip(gp, ptrs)])))
-            gd = sorted((simplify(x[df.index('level')]).as_long(), simplify(x[df.index('file_number')]).as_long()) for x in lib2.set_values(ex, env2, d[mf.index('deleted_files')]))
+            def _cl(x):
+                x = simplify(x); return x.as_long() if is_bv_value(x) else None
+            gd0 = [(_cl(x[df.index('level')]), _cl(x[df.index('file_number')])) for x in lib2.set_values(ex, env2, d[mf.index('deleted_files')])]
+            symbolic = any(a is None or b is None for a, b in gd0)      # an entry decoded from bytes that are not a level / number of this edit
+            gd = sorted(gd0) if not symbolic else gd0
             posts.append(('the deleted files of an edit do not survive encode + decode (a file deleted at one level and added at another - a trivial move - must keep its deletion)',
-                          BoolVal(gd == sorted(dels) if full else all(x in dels for x in gd))))
+                          BoolVal(False) if symbolic else BoolVal(gd == sorted(dels) if full else all(x in dels for x in gd))))
             gn = d[mf.index('new_files')]
             conds = [BoolVal(len(gn) == len(files) if full else len(gn) <= len(files))]
             for (gl, gf), (fl, f, (num, size, SM, LG)) in zip(gn, files):
@@ -642,6 +649,17 @@ def o10_12_manifest_bytes(mir, tier):
                     posts = [(l.replace('does not survive encode + decode', 'is altered when the record is cut short (a torn edit must fail or lose whole fields, never change values)'), p) for l, p in check_edit(ex, ret, env3, pc3, False)]
                     for label, post, m in ex.check_posts(posts, pc3):
                         res.violations.append({'label': label, 'case': case, 'cut': cut, 'replay': ['manifest_codec']})
+                    # an accepted prefix must be a complete encoding itself: re-encoding the decoded edit gives back exactly `cut` bytes
+                    # (a record cut inside a field must be rejected - not decoded with the torn field dropped)
+                    e4 = dict(env3); e4['$again'] = ret.fields[0]
+                    def reencoded(buf2, env5, pc5, cut=cut):
+                        n2 = len(V(ex, env5, buf2))
+                        LBL = 'a version edit cut inside a field decodes (the torn field is dropped silently: the recovered state lacks a file / number the full record carries)'
+                        res.checked = getattr(res, 'checked', 0) + 1
+                        ex.record_formula(LBL, pc5, BoolVal(n2 != cut))
+                        if n2 != cut and ex.model() is not None:
+                            res.violations.append({'label': LBL, 'case': case, 'cut': cut, 'reencoded_length': n2, 'replay': ['manifest_torn_prefixes']})
+                    ex.run_fn(enc, [Ref('$again')], e4, pc3, reencoded)
                 ex.run_fn(dec, [list(raw[:cut])], dict(env), pc, cut_decoded)
         ex.top(enc, [Ref('$m')], {'$state': {}, '$m': m0}, pre, encoded)
         res.absorb(ex)
